@@ -11,7 +11,8 @@ import flax
 import flax.linen as nn
 
 DESCS = {}
-COLOF = {0: 'ax0', 1: 'ax1', None: 'bc', 'carry': 'carry'}
+COLOF = {0: 'ax0', 1: 'ax1', 2: 'ax2', -1: 'axm1', None: 'bc', 'carry': 'carry'}
+VAXES = {'ax0': 0, 'ax1': 1, 'ax2': 2, 'axm1': -1}
 
 
 def kd(key):
@@ -61,9 +62,9 @@ class Body(nn.Module):
 
 def lifted(d):
   if d['kind'] == 'scan':
-    return nn.scan(Body, variable_axes={'ax0': 0, 'ax1': 1}, variable_broadcast='bc', variable_carry='carry',
+    return nn.scan(Body, variable_axes=dict(VAXES), variable_broadcast='bc', variable_carry='carry',
                    split_rngs={s: sp for s, sp in d['split'].items()}, in_axes=0, out_axes=0, length=d['length'], reverse=d['reverse'], unroll=d['unroll'])
-  return nn.vmap(Body, variable_axes={'ax0': 0, 'ax1': 1, 'bc': None, 'carry': None}, split_rngs={s: sp for s, sp in d['split'].items()},
+  return nn.vmap(Body, variable_axes={**VAXES, 'bc': None, 'carry': None}, split_rngs={s: sp for s, sp in d['split'].items()},
                  in_axes=(None, 0), out_axes=0, axis_size=d['length'])
 
 
@@ -91,6 +92,9 @@ class Chain(nn.Module):
   def __call__(self, c):
     d = DESCS[self.did]
     w = self.param('w', lambda k: jnp.asarray(d['winit'], dtype=jnp.int64))
+    if d.get('draw'):
+      # record the key this layer draws: one entry per layer in the stacked collection
+      self.sow('keys', 'k', jax.random.key_data(self.make_rng('noise')).astype(jnp.int64))
     return c * d['a'] + w
 
 
@@ -100,6 +104,8 @@ class ChainTop(nn.Module):
   @nn.compact
   def __call__(self, c):
     d = DESCS[self.did]
+    if d.get('draw'):
+      return nn.remat_scan(Chain, lengths=tuple(d['lengths']), split_rngs={'params': True, 'noise': d['split_noise']})(self.did, name='s')(c)
     return nn.remat_scan(Chain, lengths=tuple(d['lengths']))(self.did, name='s')(c)
 
 
@@ -110,20 +116,68 @@ def remat_scan_case(d, did):
   out = {}
 
   def ap():
+    if d.get('draw'):
+      y, upd = ChainTop(did).apply({'params': {'s': {'w': jnp.asarray(w)}}}, c0, rngs={'noise': jax.random.key(5)}, mutable=['keys'])
+      ks = np.asarray(upd['keys']['s']['k'][0]).reshape(int(np.prod(d['lengths'])), -1)
+      out['distinct_keys'] = len({tuple(int(a) for a in row) for row in ks})
+      return {'out': int(y)}
     y = ChainTop(did).apply({'params': {'s': {'w': jnp.asarray(w)}}}, c0)
     return {'out': int(y)}
 
   def loop():
     c = c0
     for wi in w.reshape(-1):
-      c = Chain(did).apply({'params': {'w': jnp.asarray(wi)}}, c)
+      c = Chain(did).apply({'params': {'w': jnp.asarray(wi)}}, c, rngs={'noise': jax.random.key(5)}, mutable=['keys'])[0] if d.get('draw') else \
+          Chain(did).apply({'params': {'w': jnp.asarray(wi)}}, c)
     return {'out': int(c)}
 
   def init():
-    y, v = ChainTop(did).init_with_output(jax.random.key(0), c0)
+    y, v = ChainTop(did).init_with_output({'params': jax.random.key(0), 'noise': jax.random.key(5)}, c0)
     return {'shape': list(np.shape(v['params']['s']['w'])), 'out': int(y)}
   out['apply'], out['loop'], out['init'] = safe(ap), safe(loop), safe(init)
   return out
+
+
+class AxCell(nn.Module):
+  """array-valued inputs / outputs and an axis collection, for in_axes / out_axes / variable_axes at any position"""
+
+  @nn.compact
+  def __call__(self, c, x):
+    t = self.variable('trace', 't', lambda: jnp.zeros(x.shape, jnp.int64))
+    k = self.param('k', lambda key: jnp.asarray(2, dtype=jnp.int64))
+    y = x * (c + k) + jnp.arange(x.size, dtype=jnp.int64).reshape(x.shape)
+    t.value = t.value + y
+    return c + jnp.sum(x), y
+
+
+def axes_case(d):
+  L, shape, ia, oa, va = d['length'], tuple(d['shape']), d['in_axis'], d['out_axis'], d['var_axis']
+  rs = np.random.RandomState(d['seed'])
+  slices = [rs.randint(-3, 4, size=shape).astype(np.int64) for _ in range(L)]
+  xs = np.stack(slices, axis=ia)
+  c0 = jnp.asarray(d['c0'], dtype=jnp.int64)
+  S = nn.scan(AxCell, variable_axes={'trace': va}, variable_broadcast='params', split_rngs={'params': False}, in_axes=ia, out_axes=oa, length=L,
+              reverse=d['reverse'])
+  out = {}
+
+  def run():
+    variables = S().init(jax.random.key(0), c0, jnp.asarray(xs))
+    tshape = list(np.shape(variables['trace']['t']))
+    t0 = [rs.randint(-2, 3, size=shape).astype(np.int64) for _ in range(L)]
+    variables = {'params': variables['params'], 'trace': {'t': jnp.asarray(np.stack(t0, axis=va))}}
+    (c, ys), upd = S().apply(variables, c0, jnp.asarray(xs), mutable=['trace'])
+    # the explicit loop over sliced inputs and variables
+    order = list(range(L))[::-1] if d['reverse'] else list(range(L))
+    cc, ey, et = c0, [None] * L, [None] * L
+    for i in order:
+      (cc, y), u = AxCell().apply({'params': variables['params'], 'trace': {'t': jnp.asarray(t0[i])}}, cc, jnp.asarray(slices[i]), mutable=['trace'])
+      ey[i], et[i] = np.asarray(y), np.asarray(u['trace']['t'])
+    exp_ys, exp_t = np.stack(ey, axis=oa), np.stack(et, axis=va)
+    return {'init_trace_shape': tshape, 'exp_trace_shape': list(exp_t.shape),
+            'ys_ok': bool(np.shape(ys) == exp_ys.shape and np.array_equal(np.asarray(ys), exp_ys)), 'ys_shape': list(np.shape(ys)), 'exp_ys_shape': list(exp_ys.shape),
+            'trace_ok': bool(np.shape(upd['trace']['t']) == exp_t.shape and np.array_equal(np.asarray(upd['trace']['t']), exp_t)),
+            'carry_ok': bool(int(c) == int(cc))}
+  return safe(run)
 
 
 def stacked_vars(d):
@@ -239,7 +293,7 @@ def main(payload):
   res = []
   for i, d in enumerate(payload['cases']):
     try:
-      res.append({'ok': remat_scan_case(d, i) if d['kind'] == 'remat_scan' else run_case(d, i)})
+      res.append({'ok': remat_scan_case(d, i) if d['kind'] == 'remat_scan' else axes_case(d) if d['kind'] == 'axes' else run_case(d, i)})
     except Exception as e:  # pylint: disable=broad-except
       import traceback
       res.append({'err': type(e).__name__, 'tb': traceback.format_exc()[-800:]})
